@@ -25,6 +25,25 @@ const char *BOUNDARY[] = {
 	"\n7", "\r7", "\v7", "\f7", "\t7", "7\n", "7\t", "\n0x1f", "\n017", "\f0b1", "\n1.5", "\t1.5", "\v1.5", "1.5\n", "\n-3", "\non", "on\n", "\ttrue", "\r\n5"};
 const int NBOUNDARY = sizeof(BOUNDARY) / sizeof(BOUNDARY[0]);
 
+// tokens longer than any fixed working buffer: exact powers of ten, long fractions, a garbage tail far out
+std::string long_token(Rng &r)
+{
+	switch (r.below(6)) {
+	case 0:
+		return "1" + std::string((size_t)r.range(60, 90), '0'); // 1e60 .. 1e90 as a float, out of range as an integer
+	case 1:
+		return "1" + std::string((size_t)r.range(60, 90), '0') + ".5";
+	case 2:
+		return "0." + std::string((size_t)r.range(60, 90), '0') + "25";
+	case 3:
+		return "3." + std::string((size_t)r.range(62, 80), '1') + "zz"; // not a numeral
+	case 4:
+		return std::string((size_t)r.range(62, 80), '7') + "x";
+	default:
+		return "-" + std::string((size_t)r.range(18, 70), '9');
+	}
+}
+
 const int ERRNOS[] = {0, ERANGE, EINVAL, ENOENT, EINTR, EBADF, 12345};
 
 std::string token_from_index(uint64_t k)
@@ -75,6 +94,8 @@ json generate(uint64_t seed, uint64_t idx, int tier)
 		unsigned sel = (unsigned)r.below(10);
 		if (tier && k == 0)
 			tok = token_from_index(idx % NTOKENS); // thorough: the length<=4 token space is cycled completely
+		else if (sel < 1)
+			tok = long_token(r);
 		else if (sel < 4)
 			tok = BOUNDARY[r.below(NBOUNDARY)];
 		else if (sel < 9)
